@@ -5,7 +5,7 @@ From Coq Require Import Permutation.
 From DV Require Import Base.Prelude Model.SetM Proofs.SetAlg Proofs.SetRdata Proofs.SetMachine
   Proofs.SetRds Proofs.SetRdsMachine Proofs.SetTtl Proofs.SetImm Proofs.SetObj Proofs.SetProc.
 From Coq Require Import Sorted.
-From DV Require Model.NameM Model.SchemaM Model.DnssecM Model.SetCanonM Proofs.DnssecRef Proofs.SetCanon Proofs.SetCanonRfc.
+From DV Require Model.NameM Model.SchemaM Model.DnssecM Model.SetCanonM Proofs.DnssecRef Proofs.SchemaCodec Proofs.SchemaFix Proofs.SetCanon Proofs.SetCanonRfc Proofs.SetCanonTotal.
 Open Scope Z_scope.
 
 (* ---------------- records: equality, hash, order ---------------- *)
@@ -52,7 +52,7 @@ Print Assumptions rdata_rich_comparisons.
 (* Model/SetCanonM.v: field lists and values are C02's (SchemaM), the canonical-form reference is
    C15's (DnssecRef.rfc4034_canonical_rdata); both imported read-only. *)
 Module Canon.
-Import NameM SchemaM SetCanonM SetCanon SetCanonRfc.
+Import NameM SchemaM SetCanonM SetCanon SetCanonRfc SetCanonTotal.
 
 (* the structured ==, _cmp and hash agree with the flat records the set theorems are about *)
 Theorem structured_eq_is_flat_eq : forall a b x y,
@@ -89,6 +89,25 @@ Theorem rdata_eq_iff_canonical : forall a b da db,
   (s_eq a b = Ok true <-> vals_ci (slow a) (svs a) (svs b)).
 Proof. exact s_eq_iff_fields. Qed.
 Print Assumptions rdata_eq_iff_canonical.
+
+(* the same without any hypothesis about the digests: every valid record with absolute names has
+   one (C02's enc_fields_total) *)
+Theorem valid_absolute_record_has_digest : forall r,
+  schema_wf (sfs r) = true -> valid_fields (sfs r) (svs r) = true ->
+  SchemaCodec.nok_fields SchemaFix.abs_name (sfs r) (svs r) ->
+  exists d, s_digest r None = Ok d.
+Proof. exact s_digest_total. Qed.
+Print Assumptions valid_absolute_record_has_digest.
+
+Theorem rdata_eq_iff_canonical_valid : forall a b,
+  schema_wf (sfs a) = true ->
+  scls a = scls b -> styp a = styp b -> sfs b = sfs a -> slow b = slow a ->
+  valid_fields (sfs a) (svs a) = true -> valid_fields (sfs a) (svs b) = true ->
+  SchemaCodec.nok_fields SchemaFix.abs_name (sfs a) (svs a) ->
+  SchemaCodec.nok_fields SchemaFix.abs_name (sfs a) (svs b) ->
+  (s_eq a b = Ok true <-> vals_ci (slow a) (svs a) (svs b)).
+Proof. exact s_eq_iff_fields_abs. Qed.
+Print Assumptions rdata_eq_iff_canonical_valid.
 
 (* relative names: a record that has one never equals a record that has none; two such records
    are == iff the values agree after completing the relative names with the root *)
@@ -165,6 +184,8 @@ Example ex_relative :
   s_eq ex_ns_rel1 ex_ns_rel2 = Ok true /\
   s_digest_rel (mkS 2 1 2 0 [FS (FName true)] CkNone true [VS (VN [[97]; []])]) = Ok ([1; 97; 0], false).
 Proof. repeat split. Qed.
+Example ex_mx_abs : SchemaCodec.nok_fields SchemaFix.abs_name (sfs ex_mx1) (svs ex_mx1).
+Proof. cbn. unfold SchemaFix.abs_name. auto. Qed.
 End Canon.
 
 (* ---------------- dns.set.Set: a set that remembers first-insertion order ---------------- *)
